@@ -285,4 +285,58 @@ theorem C04_return_edge (prog : List Ins) (nexts : List (List Nat)) (bs : List R
     exact BlockWalk.return_edge prog nexts bs h hg s.calls hinv p hp
   · cases hs
 
+/-- states reachable from the initial state by steps of the concrete semantics -/
+inductive Reachable (prog : List Ins) (e : Avm.Env) : Avm.State → Prop
+  | init : Reachable prog e {}
+  | step (s s' : Avm.State) : Reachable prog e s → Avm.step prog e s = .next s' → Reachable prog e s'
+
+theorem C04_reachable_calls_ok (prog : List Ins) (e : Avm.Env) (s : Avm.State) (h : Reachable prog e s) :
+    BlockWalk.CallsOk prog s.calls := by
+  induction h with
+  | init => exact C04_calls_invariant_init prog
+  | step s s' _ hs ih => exact C04_calls_invariant prog e s s' ih hs
+
+/-- THE BLOCK SEQUENCE VISITED BY ANY CONCRETE EXECUTION IS A WALK IN THE CONTRACT'S GRAPH.  For every program the model's
+    `parseTeal` accepts, with `bs` the graph of passes 3-4 over the blocks of the third pass (the retained blocks keep its
+    successor lists, `C04_mirror_wellformed`): EVERY transition of EVERY execution (any environment, any reachable state)
+    * stays inside its block, on the next instruction; or
+    * leaves the block at its last instruction for a block of its successor list (fall-through and jump successors of
+      b / bz / bnz / switch / match); or
+    * runs past the last instruction (the program ends there); or
+    * is a `callsub l` and lands in the entry block of subroutine `l`; or
+    * is a `retsub` and lands past the end or in a successor of the block ending with the matching `callsub`. -/
+theorem C04_execution_walk (prog : List Ins) (t : Teal) (hp : parseTeal prog = .ok t) :
+    ∃ nexts bs, insNext prog = .ok nexts ∧ CfgWF.graphOf prog nexts = .ok bs ∧
+      ∀ (e : Avm.Env) (s : Avm.State), Reachable prog e s → ∀ (s' : Avm.State) (i : Ins), prog[s.pc]? = some i →
+        Avm.step prog e s = .next s' →
+        (∃ blk ∈ (createBB prog nexts).1, BlockShape.Adj blk s.pc s'.pc ∧ s'.pc = s.pc + 1)
+        ∨ (∃ B B', blockOfIns (createBB prog nexts).1 s.pc = .ok B ∧ blockOfIns (createBB prog nexts).1 s'.pc = .ok B' ∧
+            ((createBB prog nexts).1[B]!).getLast? = some s.pc ∧ B' ∈ (bs[B]!).next)
+        ∨ (s'.pc = prog.length ∧ s.pc + 1 = prog.length ∧ i.op.noFallthrough = false)
+        ∨ (∃ l sub, i.op = .callsub l ∧ sub ∈ t.subs ∧ sub.name = l ∧
+            blockOfIns (createBB prog nexts).1 s'.pc = .ok sub.entry ∧ s'.calls = s.calls ++ [s.pc + 1])
+        ∨ (i.op = .retsub ∧ (s'.pc = prog.length ∨
+            ∃ c l ic B B', s'.pc = c + 1 ∧ prog[c]? = some ic ∧ ic.op = .callsub l ∧
+              blockOfIns (createBB prog nexts).1 c = .ok B ∧ ((createBB prog nexts).1[B]!).getLast? = some c ∧
+              blockOfIns (createBB prog nexts).1 s'.pc = .ok B' ∧ B' ∈ (bs[B]!).next)) := by
+  obtain ⟨nexts, bs, hn, hg, _⟩ := Mirror.parse_mirror prog t hp
+  refine ⟨nexts, bs, hn, hg, ?_⟩
+  intro e s hr s' i hi hs
+  rcases C04_block_walk prog nexts bs hn hg e s s' i hi hs with h1 | h1 | h1 | ⟨l, hl, _, _⟩ | ⟨hret, _, _⟩
+  · exact Or.inl h1
+  · exact Or.inr (Or.inl h1)
+  · exact Or.inr (Or.inr (Or.inl h1))
+  · obtain ⟨nexts', sub, hn', hsub, hname, hentry, hcalls⟩ := C04_call_edge prog t hp e s s' i l hi hl hs
+    rw [hn] at hn'
+    cases hn'
+    exact Or.inr (Or.inr (Or.inr (Or.inl ⟨l, sub, hl, hsub, hname, hentry, hcalls⟩)))
+  · exact Or.inr (Or.inr (Or.inr (Or.inr ⟨hret,
+      C04_return_edge prog nexts bs hn hg e s s' i hi hret (C04_reachable_calls_ok prog e s hr) hs⟩)))
+
+/-- `Reachable` is inhabited beyond the initial state, and the sample program is accepted by `parseTeal` -/
+example : Reachable [⟨1, .int (.lit 1), ""⟩, ⟨2, .ret, ""⟩] { size := 1, self := 0, txns := [⟨[]⟩] } { pc := 1, stack := [.int 1] } :=
+  Reachable.step _ _ Reachable.init rfl
+
+example : (parseTeal [⟨1, .int (.lit 1), ""⟩, ⟨2, .ret, ""⟩]).toOption.isSome = true := by decide
+
 end Tealer.C04
